@@ -26,6 +26,7 @@ Oracles (model-free unless said otherwise):
                               documented direction (1/2 on each group, or group 1 / main only)
   alchemical variable         total force = -dE/dlambda of the back end at the lambda of the step
 """
+import json
 import math
 import os
 import re
@@ -683,6 +684,70 @@ def check_alch(c, case, r, ev, sp, cfg):
     return True
 
 
+# alchemical variable plus biased alchFLambda variables: the force Colvars sends to the back end on dE/dlambda for a bias force F
+# on an alchFLambda variable (f = -F) acts on lambda as d2E/dlambda2 * f; lambda's total force at the next evaluation is
+# -dE/dlambda plus the sum of those terms over the forces actually sent at the previous step (none once a bias is deleted)
+def alch2_case(rng, idx):
+    return dict(idx=idx, a=rng.uniform(-5, 5), b=rng.uniform(-5, 5), lam=rng.uniform(0.05, 0.95), ext=(idx % 2 == 0), two=(idx % 3 != 0),
+                k1=rng.uniform(0.1, 2.0), c1=rng.uniform(-3, 3), k2=rng.uniform(0.1, 2.0), c2=rng.uniform(-3, 3),
+                delete_at=rng.choice([None, 2, 3, 4]), temp=float(rng.randint(250, 350)), T=8)
+
+
+def alch2_scenario(case):
+    cv = "colvar {\n  name cv1\n  outputTotalForce on\n  width 0.1\n"
+    if case["ext"]:
+        cv += "  extendedLagrangian on\n  extendedMass 500.0\n  extendedLangevinDamping 0.0\n  lowerBoundary 0.0\n  upperBoundary 1.0\n"
+    cv += "  alchLambda {\n  }\n}\n"
+    cfg = cv
+    for n, k, cc in (("1", case["k1"], case["c1"]), ("2", case["k2"], case["c2"]))[:2 if case["two"] else 1]:
+        cfg += "colvar {\n  name fl%s\n  alchFLambda {\n  }\n}\nharmonic {\n  name hf%s\n  colvars fl%s\n  centers %s\n  forceConstant %s\n}\n" % (n, n, n, fnum(cc), fnum(k))
+    s = "natoms 2\nmasses 1.0 1.0\ntfmode same\ndt 1.0\ntemp %s\nalch %s %s %s\n" % (fnum(case["temp"]), fnum(case["a"]), fnum(case["b"]), fnum(case["lam"]))
+    s += "module\nconfig <<EOC\n" + cfg + "EOC\ninit\npos 0 0 0 1 0 0\n"
+    for t in range(case["T"]):
+        if case["delete_at"] == t:
+            s += "script " + json.dumps(["cv", "bias", "hf1", "delete"]) + "\n"
+        s += "step\n"
+    return s, cfg
+
+
+def check_alch2(c, case, r, ev, sp, cfg):
+    key = "alchFLambda:%s:%s:%s" % ("ext" if case["ext"] else "plain", "two_producers" if case["two"] else "one_producer",
+                                    "bias_deleted" if case["delete_at"] is not None else "always_biased")
+    cfgev = [e for e in ev if e.get("ev") == "config"]
+    st = steps_of(ev)
+    if not r["complete"] or not cfgev or cfgev[0]["rc"] != 0 or len(st) != case["T"] or any(e["err"] for e in st):
+        c.note_set("alch_rejected", "%s: %s" % (key, str((cfgev[0]["errs"] if cfgev else r["err"]))[:160]))
+        return None
+    prev_lambda = None
+    sent_prev = 0.0
+    for i, e in enumerate(st):
+        lam_in = case["lam"] if prev_lambda is None else prev_lambda
+        fsys = -(2.0 * case["a"] * lam_in + case["b"])
+        ft = ft_of(e)
+        exp = fsys + 2.0 * case["a"] * sent_prev
+        if ft is None or abs(ft - exp) > 1e-11 * (abs(fsys) + abs(2.0 * case["a"] * sent_prev) + abs(ft)):
+            viol(c, "alch_indirect_force:" + key, "step %d: lambda %.15g: reported total force %r; -dE/dlambda %.15g + d2E/dlambda2 %.15g x force sent to the back end "
+                 "on dE/dlambda at the previous step %.15g = %.15g" % (i, lam_in, ft, fsys, 2.0 * case["a"], sent_prev, exp), [sp],
+                 payload={"config": cfg, "a": case["a"], "b": case["b"]})
+            return False
+        # forces sent at this step: minus the force of each live bias on its alchFLambda variable; cross-checked with what the
+        # back end received
+        sent = 0.0
+        for n in ("1", "2")[:2 if case["two"] else 1]:
+            bn = e["bias"].get("hf" + n)
+            if bn is not None and bn.get("on"):
+                sent += -fl(bn["f"][0][0])
+        got = fl(e["alch"]["f"])
+        if abs(got - sent) > 1e-11 * (abs(got) + abs(sent)) + 1e-300:
+            viol(c, "alch_force_sent:" + key, "step %d: back end received %.15g on dE/dlambda, minus the bias forces on the alchFLambda variables is %.15g" % (i, got, sent), [sp],
+                 payload={"config": cfg})
+            return False
+        sent_prev = sent
+        prev_lambda = fl(e["alch"]["lambda"])
+        c.bump("alch_indirect_steps_checked")
+    return True
+
+
 # ---------------------------------------------------------------------------------------------
 
 def run(tier, replay):
@@ -753,6 +818,16 @@ def run(tier, replay):
         s, cfg = alch_scenario(case, case["tfm"])
         return common.run_esim("plain", s, os.path.join(c.work, "alch%d" % case["idx"]), "A", timeout=120) + (cfg,)
 
+    a2 = [alch2_case(c.rng, i) for i in range(nal)]
+
+    def do_alch2(case):
+        s_, cfg = alch2_scenario(case)
+        return common.run_esim("plain", s_, os.path.join(c.work, "alchf%d" % case["idx"]), "A", timeout=120) + (cfg,)
+
+    for case, (r, ev, sp, cfg) in zip(a2, common.pmap(do_alch2, a2)):
+        c.count()
+        if check_alch2(c, case, r, ev, sp, cfg):
+            c.nontrivial("alchFLambda|%s|%s|%s" % (case["ext"], case["two"], case["delete_at"] is not None))
     for case, (r, ev, sp, cfg) in zip(acases, common.pmap(do_alch, acases)):
         c.count()
         ok = check_alch(c, case, r, ev, sp, cfg)
